@@ -101,7 +101,7 @@ def check_case(case, rec=None):
     return mm
 
 
-N = {"quick": 300, "thorough": 2500}
+N = {"quick": 900, "thorough": 8000}
 
 
 def shard_plan(tier):
